@@ -168,11 +168,96 @@ def sym_gauss(rng, n, real_only=False):
     return M
 
 
+# matrix rescaled by 2^(2m), loop diagonal by 2^m: haf, lhaf scale exactly by 2^(m*n);
+# 2^(2m) runs over about 1.5e-8 .. 4e3
+HAF_SCALE_M = (-13, -11, -10, -9, -8, -6, -5, -3, -1, 1, 3, 5, 6)
+SYM_SPARSE = ("zero-row-col", "block-diagonal", "zero-diagonal", "random-mask", "diagonal-only")
+
+
+def sym_sparsify(rng, M, kind):
+    n = len(M)
+    M = [[list(x) for x in row] for row in M]
+    if n < 2:
+        return M
+    def z(i, j):
+        M[i][j] = [0, 0]
+        M[j][i] = [0, 0]
+    if kind == "zero-row-col":
+        i = rng.randrange(n)
+        for j in range(n):
+            z(i, j)
+    elif kind == "block-diagonal":
+        a = max(1, n // 2)
+        for i in range(n):
+            for j in range(n):
+                if (i < a) != (j < a):
+                    z(i, j)
+    elif kind == "zero-diagonal":
+        for i in range(n):
+            z(i, i)
+    elif kind == "random-mask":
+        for i in range(n):
+            for j in range(i, n):
+                if rng.random() < 0.5:
+                    z(i, j)
+    elif kind == "diagonal-only":
+        for i in range(n):
+            for j in range(n):
+                if i != j:
+                    z(i, j)
+    return M
+
+
+def py_edge_count(occ):
+    """number of distinct edges chosen by utils.py:match_occupation_numbers (pure Python port,
+    used only to steer the generator to both sides of the `reduced dimension <= 10` branch;
+    the implementation's own count is recorded by the runner)"""
+    nvec = list(occ)
+    if len(nvec) == 1:
+        return 1
+    edges = 0
+    while sum(nvec) > 1:
+        order = sorted(range(len(nvec)), key=lambda i: nvec[i])
+        a, b_ = order[-1], order[-2]
+        if nvec[a] // 2 > nvec[b_]:
+            nvec[a] -= 2 * (nvec[a] // 2)
+        else:
+            nvec[a] -= nvec[b_]
+            nvec[b_] = 0
+        edges += 1
+    return edges
+
+
+def haf_payload(c):
+    """what is sent to the implementation: entries rescaled exactly"""
+    m = c.get("m")
+    out = {k: c[k] for k in ("kind", "occ", "prec", "strided", "via", "cutoff") if k in c}
+    sm, sd = (2.0 ** (2 * m), 2.0 ** m) if m is not None else (1, 1)
+    out["M"] = [[[x[0] * sm, x[1] * sm] for x in row] for row in c["M"]]
+    if "diag" in c:
+        out["diag"] = [[x[0] * sd, x[1] * sd] for x in c["diag"]]
+    return out
+
+
+def real_payload(c):
+    out = {k: c[k] for k in ("kind", "prec", "strided", "via", "y") if k in c}
+    if c["kind"] == "pf" and "e" in c:
+        sc = 2.0 ** c["e"]
+        out["M"] = [[x * sc for x in row] for row in c["M"]]
+    else:
+        out["M"] = c["M"]
+    return out
+
+
 def gen_haf_cases(rng, thorough):
     cases = []
-    n_each = 60 if thorough else 14
+    n_each = 60 if thorough else 16
     occs_fixed = [[1, 1], [2, 2], [0, 2], [1, 1, 1, 1], [2, 0, 2], [3, 1], [0, 0], [1, 0], [1, 2], [4], [1, 1, 1, 1, 1, 1],
                   [2, 2, 2], [3, 3], [1, 3, 2, 0], [6, 0, 2], [2, 1, 1]]
+
+    def add(kind, M, occ, diag, prec, t, **kw):
+        cases.append(dict({"kind": kind, "M": M, "occ": occ, "diag": diag, "prec": prec, "strided": t % 3 == 1}, **kw))
+
     for t in range(n_each):
         if t < len(occs_fixed):
             occ = occs_fixed[t]
@@ -184,22 +269,60 @@ def gen_haf_cases(rng, thorough):
         d = len(occ)
         M = sym_gauss(rng, d, rng.random() < 0.2)
         diag = [[rng.randint(-3, 3), rng.randint(-3, 3)] for _ in range(d)]
+        kw = {}
+        if t % 3 == 2 and d >= 2:
+            kw["sparse"] = SYM_SPARSE[(t // 3) % len(SYM_SPARSE)]
+            M = sym_sparsify(rng, M, kw["sparse"])
+        if t % 4 == 3:
+            # loop weights with exact zeros in a random subset of positions
+            for i in range(d):
+                if rng.random() < 0.5:
+                    diag[i] = [0, 0]
+            kw["diag_zeros"] = sum(1 for x in diag if x == [0, 0])
+        n = sum(occ)
         for kind in ("haf", "lhaf"):
-            cases.append({"kind": kind, "M": M, "occ": occ, "diag": diag, "prec": "d", "strided": t % 3 == 1,
-                          "via": "connector" if t % 4 == 0 else "module"})
+            add(kind, M, occ, diag, "d", t, via="connector" if t % 4 == 0 else "module", **kw)
+            # rescaled copies: small and large scales, few distinct edges here (reduced dimension <= 10)
+            ms = [m for m in HAF_SCALE_M if abs(m) * max(1, n) <= 400]
+            if n > 0 and ms:
+                add(kind, M, occ, diag, "d", t + 1, m=rng.choice([m for m in ms if m < -7] or ms), **kw)
+                add(kind, M, occ, diag, "d", t + 2, m=rng.choice(ms), **kw)
             if t % 2 == 0:
-                cases.append({"kind": kind, "M": M, "occ": occ, "diag": diag, "prec": "f", "strided": t % 3 == 2})
-    # plain hafnians of dimension up to 8 (all occupations 1) and a high-repetition pattern
+                mf = [m for m in HAF_SCALE_M if abs(m) * max(1, n) <= 50]
+                add(kind, M, occ, diag, "f", t + 2, **dict(kw, **({"m": rng.choice(mf)} if (mf and t % 4 == 0 and n) else {})))
+    # plain hafnians of dimension up to 8 (all occupations 1) and high-repetition patterns
     for n in (2, 4, 6, 8):
         M = sym_gauss(rng, n)
         diag = [[rng.randint(-2, 2), rng.randint(-2, 2)] for _ in range(n)]
         for kind in ("haf", "lhaf"):
-            cases.append({"kind": kind, "M": M, "occ": [1] * n, "diag": diag, "prec": "d", "strided": False})
+            add(kind, M, [1] * n, diag, "d", 0)
+            add(kind, M, [1] * n, diag, "d", 0, m=rng.choice(HAF_SCALE_M))
     for occ in ([10, 10], [7, 9, 4], [20, 0], [12]) if thorough else ([6, 6], [5, 4, 3]):
         M = sym_gauss(rng, len(occ), True)
         diag = [[rng.randint(-1, 1), 0] for _ in occ]
         for kind in ("haf", "lhaf"):
-            cases.append({"kind": kind, "M": M, "occ": occ, "diag": diag, "prec": "d", "strided": False, "cls": "high"})
+            add(kind, M, occ, diag, "d", 0, cls="high")
+            add(kind, M, occ, diag, "d", 0, cls="high", m=rng.choice([m for m in HAF_SCALE_M if abs(m) * sum(occ) <= 400]))
+    # occupations with MORE than 5 distinct edges (reduced dimension > 10: the kernels first
+    # normalise the matrix): 8 modes inside the property's range, and 12..13 singly occupied
+    # modes (beyond dimension 8, same code path) -- unscaled and rescaled
+    many = []
+    tries = 0
+    while len(many) < (4 if thorough else 2) and tries < 4000:
+        tries += 1
+        occ = [rng.randint(1, 6) for _ in range(8)]
+        if sum(occ) % 2 == 0 and sum(occ) <= 26 and py_edge_count(occ) >= 6:
+            many.append(occ)
+    many += [[1] * 12] + ([[1] * 13 + [1]] if thorough else [])
+    for occ in many:
+        d = len(occ)
+        M = sym_gauss(rng, d, True)
+        # keep the magnitudes moderate: entries in {-1, 0, 1} plus a few 2s
+        M = [[[max(-2, min(2, x[0])), 0] for x in row] for row in M]
+        diag = [[rng.randint(-1, 1), 0] for _ in range(d)]
+        for kind in ("haf", "lhaf"):
+            add(kind, M, occ, diag, "d", 0, cls="many-edges")
+            add(kind, M, occ, diag, "d", 0, cls="many-edges", m=rng.choice([m for m in HAF_SCALE_M if abs(m) * sum(occ) <= 400 and m < -4]))
     # batched variants: entry i is the value with occupation[-1] = i
     for t in range(12 if thorough else 4):
         d = rng.randint(2, 4)
@@ -207,16 +330,26 @@ def gen_haf_cases(rng, thorough):
         occ[-1] = 0
         M = sym_gauss(rng, d)
         diag = [[rng.randint(-2, 2), rng.randint(-2, 2)] for _ in range(d)]
+        kw = {}
+        if t % 2 == 1:
+            kw["sparse"] = SYM_SPARSE[t % len(SYM_SPARSE)]
+            M = sym_sparsify(rng, M, kw["sparse"])
         cut = rng.randint(1, 7)
-        cases.append({"kind": "haf_batch", "M": M, "occ": occ, "cutoff": cut, "prec": "d", "strided": False})
-        cases.append({"kind": "lhaf_batch", "M": M, "occ": occ, "diag": diag, "cutoff": cut, "prec": "d", "strided": False})
+        for mm in (None, rng.choice([m for m in HAF_SCALE_M if abs(m) * (sum(occ) + cut) <= 300])):
+            km = dict(kw, **({} if mm is None else {"m": mm}))
+            cases.append(dict({"kind": "haf_batch", "M": M, "occ": occ, "cutoff": cut, "prec": "d", "strided": False}, **km))
+            cases.append(dict({"kind": "lhaf_batch", "M": M, "occ": occ, "diag": diag, "cutoff": cut, "prec": "d", "strided": False}, **km))
     return cases
+
+
+PF_SCALE_E = (-27, -20, -17, -13, -7, -3, 3, 7, 13)
 
 
 def gen_real_cases(rng, thorough):
     cases = []
-    # Pfaffian: integer antisymmetric matrices, n <= 8 (odd n and singular leading blocks included)
-    for t in range(80 if thorough else 20):
+    # Pfaffian: integer antisymmetric matrices, n <= 8 (odd n, singular leading blocks, structured
+    # zeros: pivoting and the early `element == 0` exit key on exact zeros), unscaled and rescaled
+    for t in range(80 if thorough else 24):
         n = [0, 1, 2, 3, 4, 4, 6, 6, 8, 8, 5, 7][t % 12]
         M = [[0] * n for _ in range(n)]
         for i in range(n):
@@ -225,25 +358,88 @@ def gen_real_cases(rng, thorough):
                 if t % 5 == 3 and j == i + 1 and i % 2 == 0:
                     x = 0          # zero on the first super-diagonal: pivoting needed
                 M[i][j], M[j][i] = x, -x
+        kw = {}
+        if t % 4 == 2 and n >= 4:
+            kind = ("block-diagonal", "zero-row-col", "random-mask")[(t // 4) % 3]
+            kw["sparse"] = kind
+            a = n // 2 if kind == "block-diagonal" else rng.randrange(n)
+            for i in range(n):
+                for j in range(n):
+                    if (kind == "block-diagonal" and (i < a) != (j < a)) or (kind == "zero-row-col" and a in (i, j)) \
+                            or (kind == "random-mask" and rng.random() < 0.4):
+                        M[i][j] = 0
+                        M[j][i] = 0
         for prec in ("d", "f"):
-            cases.append({"kind": "pf", "M": M, "prec": prec, "strided": t % 3 == 1, "via": "connector" if t % 4 == 0 else "module"})
-    # torontonians: symmetric dyadic matrices with I - A diagonally dominant (positive definite)
-    for t in range(40 if thorough else 12):
-        nm = [0, 1, 2, 2, 3, 3, 4, 4, 1, 2, 3, 4][t % 12]
+            cases.append(dict({"kind": "pf", "M": M, "prec": prec, "strided": t % 3 == 1, "via": "connector" if t % 4 == 0 else "module"}, **kw))
+        if n >= 2:
+            es = [e for e in PF_SCALE_E if abs(e) * n // 2 <= (60 if t % 2 else 400)]
+            cases.append(dict({"kind": "pf", "M": M, "prec": "f" if t % 2 else "d", "strided": False, "e": rng.choice(es)}, **kw))
+    # torontonians: symmetric dyadic matrices with I - A diagonally dominant (positive definite);
+    # also rescaled towards zero, block-diagonal (decoupled modes), and displacement vectors with
+    # every pattern of exactly-zero entries (the forward substitution skips on exact zeros)
+    def tor_matrix(nm, coupling=True):
         n = 2 * nm
-        den = 64
         M = [[Fraction(0)] * n for _ in range(n)]
         for i in range(n):
             for j in range(i, n):
+                if not coupling and i // 2 != j // 2:
+                    continue
                 lim = 24 if i == j else max(1, 30 // max(1, n - 1))
-                x = Fraction(rng.randint(-lim, lim), den)
-                M[i][j] = M[j][i] = x
-        y = [Fraction(rng.randint(-32, 32), 32) for _ in range(n)]
+                M[i][j] = M[j][i] = Fraction(rng.randint(-lim, lim), 64)
+        return M
+
+    def emit(M, y, prec, strided, **kw):
         Mf = [[float(x) for x in row] for row in M]
+        cases.append(dict({"kind": "tor", "M": Mf, "prec": prec, "strided": strided}, **kw))
+        if y is not None:
+            cases.append(dict({"kind": "ltor", "M": Mf, "y": [float(v) for v in y], "prec": prec, "strided": strided}, **kw))
+
+    for t in range(40 if thorough else 12):
+        nm = [0, 1, 2, 2, 3, 3, 4, 4, 1, 2, 3, 4][t % 12]
+        n = 2 * nm
+        M = tor_matrix(nm, coupling=(t % 6 != 5))
+        y = [Fraction(rng.randint(-32, 32), 32) for _ in range(n)]
+        kw = {"sparse": "block-diagonal"} if t % 6 == 5 else {}
         for prec in ("d", "f"):
-            cases.append({"kind": "tor", "M": Mf, "prec": prec, "strided": t % 3 == 1})
-            cases.append({"kind": "ltor", "M": Mf, "y": [float(v) for v in y], "prec": prec, "strided": t % 3 == 2})
+            emit(M, y, prec, t % 3 == 1, **kw)
+        if nm >= 1:
+            # rescaled: A * 2^e (e <= 0 keeps I - A positive definite), y * 2^f
+            e, f = rng.choice((-20, -13, -10, -7, -3, -1)), rng.choice((-20, -10, -3, 1, 2))
+            Ms = [[x * Fraction(2) ** e for x in row] for row in M]
+            ys = [v * Fraction(2) ** f for v in y]
+            emit(Ms, ys, "d", False, scale=[e, f], **kw)
+    # zero patterns of the displacement vector: every subset for 2 modes, a sample for 3 and 4
+    for nm, count in ((2, 16), (3, 64 if thorough else 14), (4, 40 if thorough else 8)):
+        n = 2 * nm
+        M = tor_matrix(nm)
+        y = [Fraction(rng.choice([-1, 1]) * rng.randint(4, 32), 32) for _ in range(n)]
+        masks = list(range(2 ** n)) if 2 ** n <= count else sorted(rng.sample(range(1, 2 ** n - 1), count))
+        for k, mask in enumerate(masks):
+            ym = [v if (mask >> i) & 1 else Fraction(0) for i, v in enumerate(y)]
+            Mf = [[float(x) for x in row] for row in M]
+            cases.append({"kind": "ltor", "M": Mf, "y": [float(v) for v in ym], "prec": "d" if k % 4 else "f",
+                          "strided": False, "ymask": mask})
     return cases
+
+
+def _matchings(n, loops):
+    """(n-1)!! perfect matchings, or the number of matchings with loops (involutions)"""
+    if not loops:
+        r = 1
+        for k in range(n - 1, 0, -2):
+            r *= k
+        return r
+    a, b = 1, 1
+    for k in range(2, n + 1):
+        a, b = b, b + (k - 1) * a
+    return b
+
+
+def _fl(x):
+    try:
+        return float(x)
+    except OverflowError:
+        return float("inf") if x > 0 else float("-inf")
 
 
 def _close_c(got, exact, tol):
@@ -266,7 +462,7 @@ def check_other_kernels(chk, impl, haf_cases, real_cases, plain_exe, san_exe, ru
     # ------------------------------------------------ hafnians: model (Coq definition) on small cases, reference everywhere
     coq_items, coq_idx, item_keys = [], [], []
     for i, c in enumerate(haf_cases):
-        if c["kind"] in ("haf", "lhaf") and sum(c["occ"]) <= 8 and c["prec"] == "d":
+        if c["kind"] in ("haf", "lhaf") and sum(c["occ"]) <= 8 and c["prec"] == "d" and "m" not in c:
             if c["kind"] == "haf":
                 coq_items.append("Eval vm_compute in zi_list (haf_zi %s %s)." % (zi_m(c["M"]), nat_list(c["occ"])))
             else:
@@ -278,6 +474,10 @@ def check_other_kernels(chk, impl, haf_cases, real_cases, plain_exe, san_exe, ru
     pf_idx, tor_idx = [], []
     for i, c in enumerate(real_cases):
         if c["prec"] != "d":
+            continue
+        if c["kind"] == "pf" and "e" in c:
+            continue
+        if c["kind"] in ("tor", "ltor") and ("scale" in c or "ymask" in c):
             continue
         if c["kind"] == "pf":
             coq_items.append("Eval vm_compute in [pf_z %s]." % clist(c["M"], lambda r: clist(r)))
@@ -309,14 +509,31 @@ def check_other_kernels(chk, impl, haf_cases, real_cases, plain_exe, san_exe, ru
     distinct = set()
     samples = []
     unsupported_f32 = set()
+    census = {"reduced_dim<=10": 0, "reduced_dim>10": 0, "pow<=dim": 0, "pow>dim": 0,
+              "reduced_norm2<1e-8": 0, "reduced_norm2>=1e-8": 0, "odd_total": 0, "even_total": 0,
+              "rescaled": 0, "structured_zeros": 0, "loop_diag_with_zeros": 0, "small_scale_and_few_edges": 0,
+              "small_scale_and_many_edges": 0, "float32_out_of_range_skipped": 0}
     for i, (c, r) in enumerate(zip(haf_cases, impl["haf"])):
+        if "n_edges" in r:
+            census["reduced_dim<=10" if 2 * r["n_edges"] <= 10 else "reduced_dim>10"] += 1
+            census["pow>dim" if r["sum_reps"] > 2 * r["n_edges"] else "pow<=dim"] += 1
+            census["reduced_norm2<1e-8" if r["red_norm2"] < 1e-8 else "reduced_norm2>=1e-8"] += 1
+            if r["red_norm2"] < 1e-8 and r["red_norm2"] > 0:
+                census["small_scale_and_few_edges" if 2 * r["n_edges"] <= 10 else "small_scale_and_many_edges"] += 1
+        census["odd_total" if sum(c["occ"]) % 2 else "even_total"] += 1
+        census["rescaled"] += 1 if "m" in c else 0
+        census["structured_zeros"] += 1 if c.get("sparse") else 0
+        census["loop_diag_with_zeros"] += 1 if c.get("diag_zeros") else 0
         kind = c["kind"]
         call = {"haf": "hafnian_with_reduction", "lhaf": "loop_hafnian_with_reduction",
                 "haf_batch": "hafnian_with_reduction_batch", "lhaf_batch": "loop_hafnian_with_reduction_batch"}[kind]
         wit = {"call": "piquasso._math.hafnian.%s" % call, "matrix": c["M"], "occupation_numbers": c["occ"],
                "diagonal": c.get("diag") if "l" == kind[0] else None, "cutoff": c.get("cutoff"), "precision": c["prec"],
-               "strided": c.get("strided"), "via": c.get("via")}
+               "strided": c.get("strided"), "via": c.get("via"),
+               "rescaled": None if "m" not in c else "matrix * 2^%d, diagonal * 2^%d" % (2 * c["m"], c["m"]),
+               "sparsity": c.get("sparse")}
         diag = c.get("diag") if kind.startswith("lhaf") else None
+        mexp = c.get("m", 0)
         if kind in ("haf", "lhaf"):
             refs = [haf_ref(c["M"], c["occ"], diag)]
         else:
@@ -353,26 +570,47 @@ def check_other_kernels(chk, impl, haf_cases, real_cases, plain_exe, san_exe, ru
                 occ = list(c["occ"])
                 if len(refs) > 1:
                     occ[-1] += k
-                S = float(_abs_haf(absM, occ, absD))
-                base = 1e-9 if c["prec"] == "d" else 2e-4
-                tol = base * (1 + float(abs(rv[0]) + abs(rv[1]))) + 64 * max(1, n) * EPS[c["prec"]] * S * 2 ** (n / 2.0)
+                # magnitude scale of the algorithm's addends (not of the matching sum, which vanishes
+                # for structured zeros while the Glynn-type terms only cancel): number of matchings
+                # (with loops) times the largest weight to the power n/2; homogeneous like the value
+                amax = max([math.hypot(*x) for row in c["M"] for x in row] or [0.0])
+                dmax = max([math.hypot(*x) for x in diag] or [0.0]) if diag is not None else 0.0
+                wmax = max(amax, dmax * dmax)
+                S = Fraction(_matchings(n, diag is not None)) * Fraction(wmax) ** ((n + 1) // 2) * Fraction(2) ** (mexp * n)
+                S = max(S, Fraction(float(_abs_haf(absM, occ, absD))) * Fraction(2) ** (mexp * n))
+                sf = Fraction(2) ** (mexp * n)
+                rv = (rv[0] * sf, rv[1] * sf)
+                refs[k] = rv
+                if c["prec"] == "f" and S != 0 and not (1e-30 < S * 2 ** (n // 2) < 1e30):
+                    census["float32_out_of_range_skipped"] += 1
+                    continue
+                base = Fraction(1, 10 ** 9) if c["prec"] == "d" else Fraction(2, 10 ** 4)
+                # relative: base*|v| + 64 n eps S 2^(n/2), S = hafnian of |A| (scales like the value)
+                tol = base * (abs(rv[0]) + abs(rv[1])) + Fraction(64 * max(1, n)) * Fraction(EPS[c["prec"]]) * S * 2 ** ((n + 1) // 2)
                 if not _close_c(gv, rv, tol):
-                    bad = "entry %d: got %s, defining sum %s" % (k, gv, [float(rv[0]), float(rv[1])])
+                    bad = "entry %d: got %s, defining sum %s" % (k, gv, [_fl(rv[0]), _fl(rv[1])])
                     break
         if bad:
             chk.violation("C04:%s:value:%s" % (call, c["prec"]), "%s differs from the sum over matchings: %s" % (call, bad),
-                          dict(wit, returned=got, expected=[[float(a), float(b)] for a, b in refs]))
+                          dict(wit, returned=got, expected=[[_fl(a), _fl(b)] for a, b in refs]))
         elif len(samples) < 2 and nt:
-            samples.append({"call": call, "occ": c["occ"], "got": got[:2], "exact": [str(refs[0][0]), str(refs[0][1])]})
+            samples.append({"call": call, "occ": c["occ"], "rescaled_m": c.get("m"), "got": got[:2], "exact": [_fl(refs[0][0]), _fl(refs[0][1])]})
     for call in sorted(unsupported_f32):
         notes.append("%s does not accept complex64 input (numba TypingError: complex64/complex128 unification); complex64 is treated as an unsupported precision for it, complex128 is checked" % call)
     chk.stream("hafnian / loop hafnian with reduction (+ batched) vs the sum over matchings (Python fractions; Coq haf_def/lhaf_def agree exactly on the cases with total <= 8)",
-               n_eval, len(distinct), samples=samples, kind="search")
+               n_eval, len(distinct), samples=samples, kind="search",
+               note="branch census of the Python reduction code (cases on each side; reduced dimension = 2 * distinct edges, "
+                    "as reported by utils.match_occupation_numbers of the tree under test): " + json.dumps(census))
+    for a_, b_ in (("reduced_dim<=10", "reduced_dim>10"), ("pow<=dim", "pow>dim"), ("reduced_norm2<1e-8", "reduced_norm2>=1e-8"),
+                   ("small_scale_and_few_edges", "small_scale_and_many_edges")):
+        if census[a_] == 0 or census[b_] == 0:
+            corr_broken.append("generator quality: no hafnian case on one side of the branch %s / %s" % (a_, b_))
 
     # ------------------------------------------------ Pfaffian / torontonians: fresh native + shipped
     lines = []
     for c in real_cases:
-        toks = [c["kind"], c["prec"], str(len(c["M"]))] + [repr(float(x)) for row in c["M"] for x in row]
+        sc = 2.0 ** c["e"] if (c["kind"] == "pf" and "e" in c) else 1.0
+        toks = [c["kind"], c["prec"], str(len(c["M"]))] + [repr(float(x) * sc) for row in c["M"] for x in row]
         if c["kind"] == "ltor":
             toks += [repr(float(x)) for x in c["y"]]
         lines.append(" ".join(toks))
@@ -384,16 +622,37 @@ def check_other_kernels(chk, impl, haf_cases, real_cases, plain_exe, san_exe, ru
     distinct = set()
     samples = []
     shipped_div = 0
+    rcensus = {"pf_rescaled": 0, "pf_structured_zeros": 0, "tor_rescaled": 0, "tor_block_diagonal": 0,
+               "ltor_y_dense": 0, "ltor_y_all_zero": 0, "ltor_y_zero_after_nonzero": 0, "ltor_y_leading_zeros_only": 0}
     for i, (c, r) in enumerate(zip(real_cases, impl["real"])):
+        if c["kind"] == "pf":
+            rcensus["pf_rescaled"] += 1 if "e" in c else 0
+            rcensus["pf_structured_zeros"] += 1 if c.get("sparse") else 0
+        else:
+            rcensus["tor_rescaled"] += 1 if "scale" in c else 0
+            rcensus["tor_block_diagonal"] += 1 if c.get("sparse") else 0
+        if c["kind"] == "ltor" and len(c["y"]):
+            nz = [v != 0 for v in c["y"]]
+            if all(nz):
+                rcensus["ltor_y_dense"] += 1
+            elif not any(nz):
+                rcensus["ltor_y_all_zero"] += 1
+            elif any((not nz[k]) and any(nz[:k]) for k in range(len(nz))):
+                rcensus["ltor_y_zero_after_nonzero"] += 1
+            else:
+                rcensus["ltor_y_leading_zeros_only"] += 1
         kind = c["kind"]
         fn = {"pf": "pfaffian_cpp", "tor": "torontonian_cpp", "ltor": "loop_torontonian_cpp"}[kind]
-        wit = {"kernel": fn, "matrix": c["M"], "displacement": c.get("y"), "precision": c["prec"], "native_line": lines[i]}
+        wit = {"kernel": fn, "matrix": c["M"], "displacement": c.get("y"), "precision": c["prec"], "native_line": lines[i],
+               "matrix_rescaled_by_2^e": c.get("e"), "rescaled": c.get("scale"), "sparsity": c.get("sparse"), "y_zero_mask": c.get("ymask")}
         n = len(c["M"])
         n_eval += 1
         if kind == "pf":
             exact = pf_ref(c["M"])
-            ref = float(exact)
-            S = float(pf_ref_abs(c["M"]))
+            hs = 2.0 ** (c.get("e", 0) * (n // 2))     # pf(2^e A) = 2^(e n/2) pf(A), exactly
+            ref = float(exact) * hs
+            amax = max([abs(x) for row in c["M"] for x in row] or [0])
+            S = max(float(pf_ref_abs(c["M"])), float(_matchings(n, False)) * float(amax) ** (n // 2)) * hs
             if ("pf", i) in model and Fraction(model[("pf", i)][0]) != exact:
                 corr_broken.append("Coq pf_def differs from the Python expansion at %s" % c["M"])
             nt = n >= 4
@@ -416,7 +675,8 @@ def check_other_kernels(chk, impl, haf_cases, real_cases, plain_exe, san_exe, ru
         if nt:
             distinct.add((kind, json.dumps(c["M"])))
         base = 1e-9 if c["prec"] == "d" else 2e-4
-        tol = base * (1 + abs(ref)) + 256 * max(1, n) ** 2 * EPS[c["prec"]] * S
+        # relative: base*|v| + 256 n^2 eps S, S = sum of the absolute values of the addends
+        tol = base * abs(ref) + 256 * max(1, n) ** 2 * EPS[c["prec"]] * S
         o = nat_out[i].split()
         got = float(o[1]) if o[0] == "ok" else None
         ub = san.get(i, (None, []))[1]
@@ -438,7 +698,10 @@ def check_other_kernels(chk, impl, haf_cases, real_cases, plain_exe, san_exe, ru
         notes.append("shipped pfaffian/torontonian binaries differ from the defining sums where the fresh build is right: %d cases" % shipped_div)
     chk.stream("Pfaffian (first-row expansion, exact), torontonian / loop torontonian (subset sums with exact determinants): fresh native build + shipped binary",
                n_eval, len(distinct), samples=samples, kind="search",
-               note="Coq pf_def / tor_data agree exactly with the Python references on every float64 case (torontonian: <= 3 modes)")
+               note="Coq pf_def / tor_data agree exactly with the Python references on every unscaled float64 case (torontonian: <= 3 modes); "
+                    "input census: " + json.dumps(rcensus))
+    if rcensus["ltor_y_zero_after_nonzero"] == 0 or rcensus["pf_rescaled"] == 0 or rcensus["tor_rescaled"] == 0:
+        corr_broken.append("generator quality: a stream of the real kernels is empty: %s" % json.dumps(rcensus))
 
 
 def _abs_haf(absM, occ, absD):
